@@ -12,6 +12,12 @@ package main
 // forms: sm2 (ParseSm2PrivateKey), pkcs8 (ParsePKCS8UnecryptedPrivateKey), p8any (ParsePKCS8PrivateKey, nil password),
 // pem (ReadPrivateKeyFromPem), enc (ParsePKCS8PrivateKey with password), encpem (ReadPrivateKeyFromPem with password),
 // x509kp (gmtls.X509KeyPair with a certificate of the true public key), gmsingle (gmtls.GMX509KeyPairsSingle)
+//
+// Round 6 - public key option "2": the optional publicKey field is present and holds a point of the curve that is NOT
+// [d]G, namely [e]G for the foreign scalar e in a 9th field.  Extra forms: gmpairs (gmtls.GMX509KeyPairs, the file in both
+// slots, certificates of [d]G: accepted), and x509kp-e / gmsingle-e / gmpairs-s-e / gmpairs-e-e: the same loaders (signing
+// and encryption slot of the dual one) with the certificate of the EMBEDDED point [e]G -> `err refused:<..>` is the only
+// right answer (the file does not hold that certificate's private key); an acceptance is reported as `ok <loaded key>`.
 
 import (
 	"crypto/aes"
@@ -164,22 +170,37 @@ func runFK(f []string) string {
 	if f[5] == "1" {
 		body = append(body, derTLV(0xa1, derTLV(3, append([]byte{0}, elliptic.Marshal(curve, truth.X, truth.Y)...)))...)
 	}
+	// "2": the optional publicKey field holds a point of the curve that is NOT [d]G - the point of the foreign scalar in
+	// f[8] (a key file with somebody else's public point, a hand-edited or corrupted file).  The field is optional and
+	// redundant: the key of the file is d, its public point is [d]G whatever the field says.
+	var foreign *sm2.PrivateKey
+	if f[5] == "2" {
+		if len(f) < 9 || len(hx.UnHex(f[8])) != 32 {
+			return "BADCASE"
+		}
+		foreign = keyOf(new(big.Int).SetBytes(hx.UnHex(f[8])))
+		if foreign.D.Cmp(truth.D) == 0 {
+			return "BADCASE"
+		}
+		body = append(body, derTLV(0xa1, derTLV(3, append([]byte{0}, elliptic.Marshal(curve, foreign.X, foreign.Y)...)))...)
+	}
 	ecpriv := derTLV(0x30, body)
 	p8 := append(derTLV(2, []byte{0}), derTLV(0x30, append(append([]byte{}, derOIDecPublicKey...), derOIDsm2Curve...))...)
 	p8 = derTLV(0x30, append(p8, derTLV(4, ecpriv)...))
 	seedRng := hx.NewRng(uint64(db[5])<<8 | uint64(db[9]))
 	var key *sm2.PrivateKey
 	var err error
-	certPEM := func() ([]byte, error) {
+	certPEMof := func(owner *sm2.PrivateKey) ([]byte, error) {
 		t := &x509.Certificate{SerialNumber: big.NewInt(1410), Subject: pkix.Name{CommonName: "foreign key " + f[1]},
 			NotBefore: time.Unix(1700000000, 0), NotAfter: time.Unix(1900000000, 0), KeyUsage: x509.KeyUsageDigitalSignature,
 			SignatureAlgorithm: x509.SM2WithSM3}
-		der, err := x509.CreateCertificate(t, t, &truth.PublicKey, truth)
+		der, err := x509.CreateCertificate(t, t, &owner.PublicKey, owner)
 		if err != nil {
 			return nil, err
 		}
 		return pem.EncodeToMemory(&pem.Block{Type: "CERTIFICATE", Bytes: der}), nil
 	}
+	certPEM := func() ([]byte, error) { return certPEMof(truth) }
 	fromTLS := func(c gmtls.Certificate, err error) (*sm2.PrivateKey, error) {
 		if err != nil {
 			return nil, err
@@ -220,6 +241,46 @@ func runFK(f []string) string {
 		} else {
 			key, err = fromTLS(gmtls.GMX509KeyPairsSingle(cp, kp))
 		}
+	case "gmpairs":
+		// the dual loader, the file in BOTH slots, with a certificate of the true key [d]G for each: accepted
+		cp, cerr := certPEM()
+		if cerr != nil {
+			return "BADCASE"
+		}
+		kp := pem.EncodeToMemory(&pem.Block{Type: "PRIVATE KEY", Bytes: p8})
+		key, err = fromTLS(gmtls.GMX509KeyPairs(cp, kp, cp, kp))
+	case "x509kp-e", "gmsingle-e", "gmpairs-s-e", "gmpairs-e-e":
+		// the certificate is the one of the FOREIGN point the file carries in its publicKey field: the file's scalar is
+		// not that certificate's private key, every loader has to refuse the pair.  The other slot of the dual loader
+		// holds the genuine pair of the foreign key (written by the package), so only the slot under test can refuse.
+		if foreign == nil {
+			return "BADCASE"
+		}
+		cp, cerr := certPEMof(foreign)
+		gk, gerr := x509.WritePrivateKeyToPem(foreign, nil)
+		if cerr != nil || gerr != nil {
+			return "BADCASE"
+		}
+		if c, cerr := gmtls.GMX509KeyPairs(cp, gk, cp, gk); cerr != nil || c.PrivateKey == nil { // positive control of the material
+			return "BADCASE"
+		}
+		kp := pem.EncodeToMemory(&pem.Block{Type: "PRIVATE KEY", Bytes: p8})
+		switch f[4] {
+		case "x509kp-e":
+			key, err = fromTLS(gmtls.X509KeyPair(cp, kp))
+		case "gmsingle-e":
+			key, err = fromTLS(gmtls.GMX509KeyPairsSingle(cp, kp))
+		case "gmpairs-s-e":
+			key, err = fromTLS(gmtls.GMX509KeyPairs(cp, kp, cp, gk))
+		default:
+			_, err = gmtls.GMX509KeyPairs(cp, gk, cp, kp)
+			if err == nil {
+				key, err = x509.ReadPrivateKeyFromPem(kp, nil) // accepted: report what the accepted encryption key file reads as
+			}
+		}
+		if err != nil {
+			return "err refused:" + slugErr(err)
+		}
 	default:
 		return "BADCASE"
 	}
@@ -253,6 +314,32 @@ func genFK(r *hx.Rng, emit func(op string, args ...string)) {
 				d, sc := fkScalar(r, sh.octets, sh.top)
 				emit("FK", hx.Hex(d), strconv.Itoa(sh.octets), form, strconv.Itoa(opt&1), strconv.Itoa(opt>>1), hx.Hex(sc))
 			}
+		}
+	}
+	// key files whose optional publicKey field DISAGREES with the scalar (public key option "2": the point of the foreign
+	// scalar in the last field): every reader has to return (d, [d]G); every loader has to accept the file with a
+	// certificate of [d]G and to refuse it with the certificate of the embedded foreign point.
+	mforms := []string{"sm2", "pkcs8", "p8any", "pem", "enc", "encpem", "x509kp", "gmsingle", "gmpairs",
+		"x509kp-e", "gmsingle-e", "gmpairs-s-e", "gmpairs-e-e"}
+	mshapes := []struct {
+		octets int
+		top    bool
+	}{{32, true}, {32, false}, {33, true}, {31, false}}
+	for si, sh := range mshapes {
+		for fi, form := range mforms {
+			if si >= 2 && (form == "enc" || form == "encpem") {
+				continue
+			}
+			d, sc := fkScalar(r, sh.octets, sh.top)
+			e, _ := fkScalar(r, 32-(fi+si)%2, (fi+si)%3 == 0) // foreign scalar: 32 or 31 significant octets
+			if hx.Hex(e) == hx.Hex(d) {
+				e[31] ^= 1
+			}
+			oid := strconv.Itoa((fi + si) & 1)
+			if strings.HasSuffix(form, "-e") {
+				oid = "1" // what the package itself writes, apart from the scalar
+			}
+			emit("FK", hx.Hex(d), strconv.Itoa(sh.octets), form, "2", oid, hx.Hex(sc), hx.Hex(e))
 		}
 	}
 }
